@@ -9,7 +9,7 @@ use crate::words::its::Layer;
 
 include!(concat!(env!("VERIF_ROOT"), "/oracle/alpide.rs"));
 
-//@ harness: c13_from_byte props=C13,C04 tier=quick class=functional covers=3 mem=6 timeout=300 est=10
+//@ harness: c13_from_byte props=C13,C04,C20 tier=quick class=functional covers=3 mem=6 timeout=300 est=10
 //@ bounds: all 256 byte values: AlpideWord::from_byte == reference classification; never Ape(Padding) (justifies the unreachable_unchecked in decode)
 #[kani::proof]
 fn c13_from_byte() {
@@ -56,7 +56,7 @@ fn stats_match(a: &mut LaneAlpideFrameAnalyzer, m: &RefLaneDecoder) -> bool {
         && f.busy_transitions() == m.busy_transitions
 }
 
-//@ harness: c13_decode_step props=C13,C04,C01 tier=quick class=functional covers=8 mem=8 timeout=600 est=30
+//@ harness: c13_decode_step props=C13,C04,C01,C20 tier=quick class=functional covers=8 mem=8 timeout=600 est=30
 //@ bounds: ONE arbitrary byte from an ARBITRARY decoder state (header-seen flag, skip count <= 2, BC-expected flag, last chip id, fatal flag, 0 or 1 stored chip with arbitrary id/BC), legal ALPIDE context: post-state == reference transition. Unconstrained pre-state => covers lane streams of any length
 #[kani::proof]
 #[kani::unwind(9)]
